@@ -3,5 +3,7 @@ CONSTANTS DSpan = 40
           NDay = 14
           MJMax = 36
           MYears = {1999, 2000}
+          WSpanAbs = {0, 1, 2, 3, 4, 5, 6, 7, 8, 9, 14, 15}
+          WKAbs = {1, 2, 3, 5, 7, 14}
 INIT Init
 NEXT NextGen
